@@ -10,8 +10,13 @@ package cluster
 //                        of them one member's handle has a short time-out and the others hold long),
 //                        "H" (hand-off storms: back-to-back Lock/Unlock by several goroutines per
 //                        member with randomly delayed etcd requests), "B" (two handle objects of one
-//                        member for the same name), each followed by probes: at quiescence every
-//                        handle must be lockable again.
+//                        member for the same name), "L" (lease re-grant: a member whose lease keep-alive
+//                        is made to fail once while one of its goroutines is inside the critical
+//                        section - cluster.keepAliveLease grants the member a new lease -, then some
+//                        component of that member asks for a cluster mutex of another name; its
+//                        goroutines obtain their handle with cluster.Mutex(name) before every Lock, the
+//                        other members contend all the time), each followed by probes: at quiescence
+//                        every handle must be lockable again.
 
 import (
 	"context"
@@ -37,11 +42,15 @@ func init() { logger.InitNop() }
 // c18Options builds the options of a member by hand (option.Parse would parse the test binary's
 // flags) with every directory under `dir`.
 func c18Options(dir, name, role string, primaryPeerURLs []string) *option.Options {
+	return c18OptionsT(dir, name, role, primaryPeerURLs, "10s")
+}
+
+func c18OptionsT(dir, name, role string, primaryPeerURLs []string, requestTimeout string) *option.Options {
 	opt := option.New()
 	opt.Name = name
 	opt.ClusterName = "verif-cluster"
 	opt.ClusterRole = role
-	opt.ClusterRequestTimeout = "10s"
+	opt.ClusterRequestTimeout = requestTimeout
 	opt.HomeDir = dir
 	opt.AbsHomeDir = dir
 	opt.DataDir, opt.AbsDataDir = dir+"/data", dir+"/data"
@@ -147,10 +156,36 @@ func (t *c18JitterTxn) Commit() (*clientv3.TxnResponse, error) {
 
 func (k *c18JitterKV) Txn(ctx context.Context) clientv3.Txn { return &c18JitterTxn{k.KV.Txn(ctx), k} }
 
+// c18FaultyLease makes the next KeepAliveOnce calls of a member's etcd client fail while armed (a
+// keep-alive request lost on the network); everything else is passed through.
+type c18FaultyLease struct {
+	clientv3.Lease
+	failNext int32 // number of KeepAliveOnce calls still to fail (atomic)
+	failed   int32 // calls failed so far (atomic)
+}
+
+func (l *c18FaultyLease) KeepAliveOnce(ctx context.Context, id clientv3.LeaseID) (*clientv3.LeaseKeepAliveResponse, error) {
+	for {
+		n := atomic.LoadInt32(&l.failNext)
+		if n <= 0 {
+			break
+		}
+		if atomic.CompareAndSwapInt32(&l.failNext, n, n-1) {
+			atomic.AddInt32(&l.failed, 1)
+			return nil, fmt.Errorf("verif: keep-alive request lost")
+		}
+	}
+	return l.Lease.KeepAliveOnce(ctx, id)
+}
+
 type c18Env struct {
 	dir     string
 	members []*cluster // members[0] is the primary with the embedded etcd
 	jitter  []*c18JitterKV
+	// the member of the scenarios L: a secondary with a short request time-out (= keep-alive period)
+	// whose keep-alive can be made to fail; not among `members`
+	faulty      *cluster
+	faultyLease *c18FaultyLease
 }
 
 // installJitter wraps the KV of the member's etcd client (before its session is created).
@@ -212,9 +247,32 @@ func c18Setup(nSecondary int) (*c18Env, error) {
 	return e, nil
 }
 
+// addFaulty starts the member of the scenarios L.
+func (e *c18Env) addFaulty() error {
+	sub := e.dir + "/f"
+	os.MkdirAll(sub, 0o755)
+	f, err := c18New(c18OptionsT(sub, "member-f", "secondary", e.members[0].opt.Cluster.InitialAdvertisePeerURLs, "2s"))
+	if err != nil {
+		return err
+	}
+	e.faulty = f
+	cl, err := f.getClient()
+	if err != nil {
+		return err
+	}
+	e.faultyLease = &c18FaultyLease{Lease: cl.Lease}
+	cl.Lease = e.faultyLease
+	return nil
+}
+
 func (e *c18Env) Close() {
 	done := make(chan struct{})
 	go func() {
+		if e.faulty != nil {
+			wg := &sync.WaitGroup{}
+			wg.Add(1)
+			e.faulty.Close(wg)
+		}
 		for i := len(e.members) - 1; i >= 0; i-- {
 			wg := &sync.WaitGroup{}
 			wg.Add(1)
@@ -234,6 +292,15 @@ type c18Handle struct {
 	id     string
 	member int
 	m      Mutex
+	// fresh != nil: the handle is obtained anew (cluster.Mutex(name)) before every Lock call
+	fresh func() (Mutex, error)
+}
+
+func (h *c18Handle) get() (Mutex, error) {
+	if h.fresh != nil {
+		return h.fresh()
+	}
+	return h.m, nil
 }
 
 type c18Worker struct {
@@ -244,6 +311,8 @@ type c18Worker struct {
 	holdMax time.Duration
 	noPause bool
 	seed    int64
+	// holdFn != nil: called inside the critical section before the hold time (returns true when it did something)
+	holdFn func() bool
 }
 
 const (
@@ -272,9 +341,14 @@ func c18Scenario(w *vx.Writer, cfg vx.M, handles []*c18Handle, workers []c18Work
 				if d := rng.Intn(4); d > 0 && !wk.noPause {
 					time.Sleep(time.Duration(rng.Intn(20*d)) * time.Millisecond)
 				}
+				hm, herr := wk.h.get()
+				if herr != nil {
+					w.Emit(vx.M{"ev": "harness-error", "what": "cluster.Mutex: " + herr.Error()})
+					return
+				}
 				atomic.StoreInt32(&state[i], c18InLock)
 				w.Emit(vx.M{"ev": "inv", "p": wk.p, "op": "lock", "h": wk.h.id, "m": wk.h.member, "probe": false})
-				err := wk.h.m.Lock()
+				err := hm.Lock()
 				if err == nil {
 					n := atomic.AddInt32(&inside, 1)
 					for {
@@ -291,13 +365,16 @@ func c18Scenario(w *vx.Writer, cfg vx.M, handles []*c18Handle, workers []c18Work
 					atomic.StoreInt32(&state[i], c18Idle)
 					continue
 				}
+				if wk.holdFn != nil && wk.holdFn() {
+					lastProgress.Store(time.Now().UnixNano())
+				}
 				if wk.holdMax > 0 {
 					time.Sleep(wk.holdMin + time.Duration(rng.Int63n(int64(wk.holdMax))))
 				}
 				atomic.AddInt32(&inside, -1)
 				atomic.StoreInt32(&state[i], c18InUnlock)
 				w.Emit(vx.M{"ev": "inv", "p": wk.p, "op": "unlock"})
-				uerr := wk.h.m.Unlock()
+				uerr := hm.Unlock()
 				lastProgress.Store(time.Now().UnixNano())
 				w.Emit(vx.M{"ev": "ret", "p": wk.p, "op": "unlock", "ok": uerr == nil})
 				atomic.StoreInt32(&state[i], c18Idle)
@@ -349,23 +426,28 @@ wait:
 	for i, h := range handles {
 		ps := &probeState{p: fmt.Sprintf("g%d", i)}
 		probes[i] = ps
-		if mm, isM := h.m.(*mutex); isM {
+		hm, herr := h.get()
+		if herr != nil {
+			w.Emit(vx.M{"ev": "harness-error", "what": "cluster.Mutex: " + herr.Error()})
+			return false, atomic.LoadInt32(&maxIn)
+		}
+		if mm, isM := hm.(*mutex); isM {
 			mm.timeout = probeTimeout
 		}
 		pwg.Add(1)
-		go func(h *c18Handle, ps *probeState) {
+		go func(h *c18Handle, hm Mutex, ps *probeState) {
 			defer pwg.Done()
 			w.Emit(vx.M{"ev": "inv", "p": ps.p, "op": "lock", "h": h.id, "m": h.member, "probe": true})
-			err := h.m.Lock()
+			err := hm.Lock()
 			atomic.StoreInt32(&ps.done, 1)
 			w.Emit(vx.M{"ev": "ret", "p": ps.p, "op": "lock", "ok": err == nil})
 			if err != nil {
 				return
 			}
 			w.Emit(vx.M{"ev": "inv", "p": ps.p, "op": "unlock"})
-			uerr := h.m.Unlock()
+			uerr := hm.Unlock()
 			w.Emit(vx.M{"ev": "ret", "p": ps.p, "op": "unlock", "ok": uerr == nil})
-		}(h, ps)
+		}(h, hm, ps)
 	}
 	pdone := make(chan struct{})
 	go func() { pwg.Wait(); close(pdone) }()
@@ -479,6 +561,92 @@ func TestVerifC18Mutex(t *testing.T) {
 			return
 		}
 	}
+	// ---- L: the keep-alive of member-f's lease fails once while one of its goroutines holds the lock: the
+	// member is granted a new lease (cluster.keepAliveLease); then another component of the member uses a
+	// cluster mutex of another name. member-f's goroutines ask for their handle before every Lock call.
+	nL := vx.EnvInt("VERIF_NL", 2)
+	regrants := 0
+	if nL > 0 {
+		if err := ce.addFaulty(); err != nil {
+			w.Emit(vx.M{"ev": "setup-failed", "what": "member-f: " + err.Error()})
+			return
+		}
+	}
+	for i := 0; i < nL; i++ {
+		scen++
+		name := fmt.Sprintf("/verif/lock-%d", scen)
+		f, fl := ce.faulty, ce.faultyLease
+		// the member's mutex object for the name (cluster.Mutex returns it again as long as the member keeps
+		// its session) gets a generous time-out
+		if h0, err := f.Mutex(name); err != nil {
+			t.Fatalf("cluster.Mutex: %v", err)
+		} else {
+			h0.(*mutex).timeout = 8 * time.Second
+		}
+		hf := &c18Handle{id: "hf", member: len(ce.members), fresh: func() (Mutex, error) { return f.Mutex(name) }}
+		handles := []*c18Handle{hf}
+		grace := time.Duration(500+rng.Intn(400)) * time.Millisecond
+		var faultStarted int32
+		var regranted int32
+		fault := func() bool {
+			if !atomic.CompareAndSwapInt32(&faultStarted, 0, 1) {
+				return false
+			}
+			before, err := f.getLease()
+			if err != nil {
+				w.Emit(vx.M{"ev": "fault", "what": "missed", "why": err.Error()})
+				return true
+			}
+			w.Emit(vx.M{"ev": "fault", "what": "keep-alive fails", "lease": fmt.Sprintf("%x", int64(before))})
+			atomic.StoreInt32(&fl.failNext, 1)
+			changed := false
+			for dl := time.Now().Add(15 * time.Second); time.Now().Before(dl) && !changed; time.Sleep(20 * time.Millisecond) {
+				if cur, err := f.getLease(); err == nil && cur != before {
+					changed = true
+				}
+			}
+			atomic.StoreInt32(&fl.failNext, 0)
+			if !changed {
+				w.Emit(vx.M{"ev": "fault", "what": "missed", "why": "the member's lease did not change within 15 s"})
+				return true
+			}
+			om, err := f.Mutex(name + "-other")
+			if err == nil {
+				if err = om.Lock(); err == nil {
+					err = om.Unlock()
+				}
+			}
+			cur, _ := f.getLease()
+			w.Emit(vx.M{"ev": "fault", "what": "re-granted", "lease": fmt.Sprintf("%x", int64(cur)), "other_mutex_ok": err == nil})
+			atomic.StoreInt32(&regranted, 1)
+			// the lock is still held: the contenders get time to show otherwise
+			time.Sleep(grace)
+			return true
+		}
+		var workers []c18Worker
+		for k := 0; k < 2; k++ {
+			workers = append(workers, c18Worker{p: fmt.Sprintf("g%d", len(workers)), h: hf, rounds: 2, holdMax: 30 * time.Millisecond,
+				seed: rng.Int63(), holdFn: fault})
+		}
+		for m := range ce.members {
+			h := mk(m, name, fmt.Sprintf("h%d", m), 8*time.Second)
+			handles = append(handles, h)
+			for k := 0; k < 1+rng.Intn(2); k++ {
+				workers = append(workers, c18Worker{p: fmt.Sprintf("g%d", len(workers)), h: h, rounds: 3 + rng.Intn(2), holdMax: 40 * time.Millisecond,
+					seed: rng.Int63()})
+			}
+		}
+		ok, maxIn := c18Scenario(w, vx.M{"ev": "reset", "cfg": "L", "scen": scen, "members": len(ce.members) + 1, "handles": len(handles),
+			"workers": len(workers), "short": false}, handles, workers, probeTimeout)
+		if atomic.LoadInt32(&regranted) == 1 {
+			regrants++
+		}
+		w.Emit(vx.M{"ev": "end", "scen": scen, "max_inside": int(maxIn), "completed": ok, "regranted": atomic.LoadInt32(&regranted) == 1})
+		if !ok {
+			w.Emit(vx.M{"ev": "summary", "scenarios": scen, "short_timeout_scenarios": shortTimeouts, "lease_regrants": regrants, "aborted": true})
+			return
+		}
+	}
 	// ---- B: two handle objects of member 0 for the same name (cluster.Mutex called twice)
 	for i := 0; i < nB; i++ {
 		scen++
@@ -501,5 +669,5 @@ func TestVerifC18Mutex(t *testing.T) {
 			break
 		}
 	}
-	w.Emit(vx.M{"ev": "summary", "scenarios": scen, "short_timeout_scenarios": shortTimeouts})
+	w.Emit(vx.M{"ev": "summary", "scenarios": scen, "short_timeout_scenarios": shortTimeouts, "lease_regrants": regrants})
 }
